@@ -50,6 +50,20 @@ CHECKS = {
             "NOT decided: that each first-operand handler's value equals torch on the dense tensor (numerical).",
             TRUST + "; operators' +, @, mul are true sum/product/elementwise product (C01/C02).",
             "DESIGN.md section 3, C15"),
+    "C13": (True,
+            "interprocedural ownership / may-alias dataflow (forward abstract interpretation over the ast, callee "
+            "summaries by whole-package fixpoint, MRO + class-hierarchy call resolution)",
+            "Claims the property in full, sound modulo the listed assumptions A1-A6: every one of the ~370 in-place "
+            "write sites of the package (tensor x.op_() methods, out= keywords, subscript stores, augmented "
+            "assignments, requires_grad_/detach_ applied to operators) is proved to target storage the function owns - "
+            "or is excused by the property itself (explicit out= buffers, the named in-place API) - for EVERY input "
+            "layout (contiguous, expanded, transposed, storage-sharing views: contiguous/reshape/to/expand are never "
+            "assumed to copy), every early-exit path and every class reachable through dynamic dispatch. Also: no "
+            "method re-assigns an attribute that __init__ derives from constructor parameters. The tests never look at "
+            "their inputs after a call and always pass fresh contiguous tensors, so none of this is reachable by them.",
+            TRUST + "; assumptions A1 (torch API table), A2 (caller closures do not leak retained storage), A3 (no "
+            "further reflection), A4 (Function.apply returns new objects), A5 (annotation / usage based typing), A6.",
+            "DESIGN.md section 2 (E1) and section 3, C13"),
 }
 
 NOT_APPLICABLE = {
